@@ -22,7 +22,10 @@ let run_pipe () =
   let comments = read_list read_comment in
   let nls = read_list read_n in
   let rule_diags = read_list read_diag in
-  let ext = read_opt (fun () -> let ds = read_list read_diag in let cs = read_list read_str in (ds, cs)) in
+  let ext = (match next_int () with
+    | 0 -> Pipeline.NoCallback
+    | 1 -> Pipeline.Declined
+    | _ -> let ds = read_list read_diag in let cs = read_list read_str in Pipeline.ExtResult (ds, cs)) in
   let orc = if next_int () = 0 then Pipeline.id_oracle else Pipeline.rev_oracle in
   let o = { Pipeline.o_file_word = fw; o_line_word = lw; o_rules = rules; o_all_codes = all_codes } in
   let f = { Pipeline.f_leading = leading; f_comments = comments; f_nls = nls } in
